@@ -425,7 +425,29 @@ func extreme(r *rand.Rand, key string) ([]byte, string) {
 	con := enc(&mqtt.Connect{ProtoName: []byte("MQTT"), Version: 4, ClientID: []byte("x")})
 	big := []string{"9223372036854775807", "-9223372036854775808", "4294967296", "2147483648", "1073741824", "99999999999", "-1", "0", "18446744073709551616"}
 	v := big[r.Intn(len(big))]
-	switch r.Intn(7) {
+	switch r.Intn(10) {
+	case 7, 8, 9: // option lists of every malformed shape: keys without '=', empty keys / values, stray separators
+		complete := []string{"ttl=42", "last=2", "me=0", "a=b"}
+		tails := []string{"", "&", "x", "ttl", "x=", "=1", "&&", "a==b", "a=1?b=2", "x&y"}
+		opt := "?"
+		nc := r.Intn(3)
+		for k := 0; k < nc; k++ {
+			if k > 0 {
+				opt += "&"
+			}
+			opt += complete[r.Intn(len(complete))]
+		}
+		if tail := tails[r.Intn(len(tails))]; tail != "" {
+			if nc > 0 && tail[0] != '&' {
+				opt += "&"
+			}
+			opt += tail
+		}
+		topic := []byte(key + "/a/b/" + opt)
+		if r.Intn(2) == 0 {
+			return append(con, enc(&mqtt.Subscribe{Header: mqtt.Header{QOS: 1}, MessageID: 1, Subscriptions: []mqtt.TopicQOSTuple{{Topic: topic}}})...), "odd-options"
+		}
+		return append(con, enc(&mqtt.Publish{Header: mqtt.Header{QOS: 1}, MessageID: 1, Topic: topic, Payload: []byte("x")})...), "odd-options"
 	case 0:
 		return append(con, enc(&mqtt.Subscribe{Header: mqtt.Header{QOS: 1}, MessageID: 1, Subscriptions: []mqtt.TopicQOSTuple{{Topic: []byte(key + "/a/b/?last=" + v)}}})...), "extreme-last"
 	case 1:
